@@ -563,7 +563,13 @@ def check_c08(ctx):
                         'retention %s, cycle started %.3f)' % (
                             name, pre.server, smax, retention, t0))
         elif state == 'frozen':
-            if (not pre.unschedule and not pre.renew and
+            marked_fn = getattr(ctx.truth, 'marked', None)
+            if marked_fn is not None:
+                # the harness's own record of explicit marks, not the flag
+                marked = marked_fn(name, pre.server)
+            else:
+                marked = pre.unschedule
+            if (not marked and not pre.renew and
                     post.server != pre.server):
                 return ('C08:frozen-server-lost-instance',
                         '%s on frozen server %s not marked for unscheduling '
